@@ -184,6 +184,11 @@ func (fr *Frame) preludeCall(st *State, name string, fn *ssa.Function, args []Va
 			return Val{T: Forall(bs, Implies(And(facts...), body))}, true
 		}
 		return Val{T: Exists(bs, And(append(facts, body)...))}, true
+	case "__mapAt":
+		// the value stored under a key, without Go's "zero value when absent" (use under a presence hypothesis)
+		return Val{T: ex.mapGetRaw(st, cc.Args[0].Type(), args[0].T, args[1].T)}, true
+	case "__mapHas":
+		return Val{T: ex.mapHas(st, cc.Args[0].Type(), args[0].T, args[1].T)}, true
 	case "__visited":
 		mt := cc.Args[0].Type()
 		comp, cs, _ := ex.visitedComp(mt)
